@@ -202,6 +202,10 @@ func runSigCase(ci interface{}, rec *pbt.Rec) *pbt.Failure {
 				ExternalRecipient: spellAddr(a20(tx.Dest), c.Spell+i),
 				Token:             mtypes.ExternalToken{Amount: sdk.NewIntFromBigInt(bi(tx.Amount)), ExternalTokenId: b.ExternalTokenId},
 				Fee:               mtypes.ExternalToken{Amount: sdk.NewIntFromBigInt(bi(tx.Fee)), ExternalTokenId: b.ExternalTokenId}})
+			if i%2 == 1 {
+				// the validators' commission stays on the hub: it is recorded with the transfer and is no part of what the contract pays or hashes
+				b.Transactions[i].ValCommission = mtypes.ExternalToken{Amount: sdk.NewIntFromBigInt(new(big.Int).Add(new(big.Int).Rsh(bi(tx.Amount), 7), big.NewInt(13))), ExternalTokenId: b.ExternalTokenId}
+			}
 			am, fe, de = append(am, bi(tx.Amount)), append(fe, bi(tx.Fee)), append(de, a20(tx.Dest))
 		}
 		hubDigest = b.GetCheckpoint(gid)
